@@ -450,6 +450,7 @@ def galilean_driver(model, res):
 # R9.3 rotation / translation typing
 
 INV, VEC, PT, VECS, PTS = 'Inv', 'Vec', 'Pt', 'Vec[]', 'Pt[]'
+VV, VVS = 'Vec*Vec', 'Vec*Vec[]'      # component-wise product of two vectors: only its sum over the components is invariant
 
 
 class RotEval:
@@ -480,7 +481,7 @@ class RotEval:
         return r
 
     def geom(self, x):
-        return x in (VEC, PT, VECS, PTS)
+        return x in (VEC, PT, VECS, PTS, VV, VVS)
 
     def _t(self, n):
         k = n.kind
@@ -539,6 +540,16 @@ class RotEval:
                     return PTS if PTS in (a, b) else PT
             if op in ('*',) and ((a == INV and b in (VEC, VECS)) or (b == INV and a in (VEC, VECS))):
                 return b if a == INV else a
+            if op == '*' and a in (VEC, VECS) and b in (VEC, VECS):
+                return VVS if VECS in (a, b) else VV        # dot product in two steps: sum(u * v)
+            if op == '**' and a in (VEC, VECS) and n.args[1].kind == 'const' and n.args[1].val in (2, 2.0):
+                return VVS if a == VECS else VV
+            if op in ('*', '/') and b == INV and a in (VV, VVS):
+                return a
+            if op == '*' and a == INV and b in (VV, VVS):
+                return b
+            if op in ('+', '-') and a in (VV, VVS) and b in (VV, VVS):
+                return VVS if VVS in (a, b) else VV
             if op == '/' and b == INV and a in (VEC, VECS):
                 return a
             self.viol(n, 'operation %s %s %s is not equivariant' % (a, op, b))
@@ -611,6 +622,21 @@ class RotEval:
                     return INV
                 self.viol(n, 'norm(%s) is not invariant under the symmetry group' % ts[0])
                 return None
+            if name in ('numpy.sum', 'builtins.sum', 'math.fsum', 'numpy.add.reduce') and ts and ts[0] in (VV, VVS):
+                self.checked += 1
+                ax = n.kw.get('axis') or (n.args[1] if len(n.args) > 1 else None)
+                if ts[0] == VV and ax is None:
+                    return INV                      # sum over the components of u * v
+                if ts[0] == VVS and ax is not None and ax.kind == 'const' and ax.val in (1, -1):
+                    return INV                      # row-wise dot products
+                self.viol(n, 'sum of a component-wise product of vectors over the wrong axis')
+                return None
+            if name in ('numpy.square',) and ts and ts[0] in (VEC, VECS):
+                return VVS if ts[0] == VECS else VV
+            if name in ('numpy.einsum',) and len(ts) == 3 and n.args[0].kind == 'const' and \
+                    n.args[0].val.replace(' ', '') in ('ij,ij->i', 'i,i->', 'i,i') and ts[1] in (VEC, VECS) and ts[2] in (VEC, VECS):
+                self.checked += 1
+                return INV
             if name in ('numpy.array', 'numpy.asarray', 'numpy.copy') and ts:
                 return ts[0]
             if name in ('numpy.zeros', 'numpy.empty', 'numpy.ones', 'builtins.len', 'builtins.range'):
